@@ -1,1 +1,362 @@
-From Coq Require Import ZArith List.
+(* Lemmas for C14: sizes of the descriptor writers (C14_len), the TLV framing of parseDescriptors (C14_tlv),
+   per-tag round trips. *)
+From Coq Require Import ZArith List Lia Bool ZifyBool.
+Require Import Base.Bits Base.Iter Base.Wr Gen.Consts Gen.Types Gen.Preds Model.Dvb Model.Desc Spec.DescSpec.
+Import ListNotations.
+Open Scope Z_scope.
+
+(* ================= part A: sizes ================= *)
+
+(* number of bits an item list hands to the BitsWriter *)
+Definition bitlen (l : list witem) : Z := Z.of_nat (length (items_bits l)).
+
+Lemma bitlen_nil : bitlen [] = 0. Proof. reflexivity. Qed.
+Lemma bitlen_app a b : bitlen (a ++ b) = bitlen a + bitlen b.
+Proof. unfold bitlen. rewrite items_bits_app, app_length. lia. Qed.
+Lemma bitlen_cons it l : bitlen (it :: l) = bitlen [it] + bitlen l.
+Proof. change (it :: l) with ([it] ++ l). apply bitlen_app. Qed.
+Lemma bitlen_bits w v : bitlen [WBits w v] = Z.of_nat w.
+Proof. unfold bitlen, items_bits; cbn [flat_map item_bits]. rewrite app_nil_r, bits_of_length. reflexivity. Qed.
+Lemma bitlen_bool b : bitlen [WBool b] = 1. Proof. reflexivity. Qed.
+Lemma bitlen_bytes bs : bitlen [WBytes bs] = 8 * zlen bs.
+Proof. unfold bitlen, items_bits, zlen; cbn [flat_map item_bits]. rewrite app_nil_r, bits_of_bytes_length. lia. Qed.
+Lemma bitlen_repeat it n : bitlen (repeat it n) = Z.of_nat n * bitlen [it].
+Proof. induction n as [|n IH]; [reflexivity|]. cbn [repeat]. rewrite bitlen_cons, IH. lia. Qed.
+
+Lemma bitlen_wbytesn bs n pad : bitlen (wbytesn bs n pad) = 8 * Z.of_nat n.
+Proof.
+  unfold wbytesn. destruct (n =? 0)%nat eqn:E0; [apply Nat.eqb_eq in E0; subst; reflexivity|].
+  destruct (n <=? length bs)%nat eqn:E1.
+  - apply Nat.leb_le in E1. rewrite bitlen_bytes. unfold zlen. rewrite firstn_length. lia.
+  - apply Nat.leb_gt in E1. rewrite bitlen_cons, bitlen_bytes, bitlen_repeat. unfold wu8. rewrite bitlen_bits. unfold zlen. lia.
+Qed.
+
+Lemma bitlen_wif c l : bitlen (wif c l) = if c then bitlen l else 0.
+Proof. destruct c; reflexivity. Qed.
+
+Lemma bitlen_flat_map {A} (f : A -> list witem) (g : A -> Z) (l : list A) :
+  (forall x, bitlen (f x) = g x) -> bitlen (flat_map f l) = sumZ g l.
+Proof.
+  intros H. induction l as [|x l IH]; [reflexivity|]. cbn [flat_map sumZ fold_right]. rewrite bitlen_app, H, IH. reflexivity.
+Qed.
+
+Lemma sumZ_const {A} (l : list A) k : sumZ (fun _ => k) l = k * zlen l.
+Proof. unfold zlen. induction l as [|x l IH]; [cbn; lia|]. cbn [sumZ fold_right length]. unfold sumZ in IH. rewrite IH. lia. Qed.
+
+Lemma sumZ_ext {A} (f g : A -> Z) l : (forall x, f x = g x) -> sumZ f l = sumZ g l.
+Proof. intros H. induction l as [|x l IH]; [reflexivity|]. cbn [sumZ fold_right]. unfold sumZ in IH. rewrite H, IH. reflexivity. Qed.
+
+Lemma blen_zlen bs : blen bs = zlen bs. Proof. reflexivity. Qed.
+
+Ltac bl := unfold wu8, wu16, wu32;
+  repeat first [ rewrite bitlen_app | rewrite bitlen_wbytesn | rewrite bitlen_wif | rewrite bitlen_bits
+               | rewrite bitlen_bool | rewrite bitlen_bytes | rewrite bitlen_nil
+               | rewrite (bitlen_cons _ (_ :: _)) ].
+
+(* the DVB time writers behind the local time offset descriptor, through the interface of Model/Dvb.v *)
+Lemma bitlen_enc_dvb_duration_minutes ns : bitlen (enc_dvb_duration_minutes ns) = 16.
+Proof. unfold enc_dvb_duration_minutes. bl. reflexivity. Qed.
+Lemma bitlen_enc_dvb_time t : bitlen (enc_dvb_time t) = 40.
+Proof.
+  unfold enc_dvb_time, enc_dvb_duration_seconds.
+  repeat match goal with |- context [let '(_, _) := ?x in _] => destruct x end.
+  bl. reflexivity.
+Qed.
+
+(* ---- L1: every body writer emits 8 * size bits ---- *)
+
+Lemma bitlen_enc_ac3 v : bitlen (enc_ac3 v) = 8 * size_ac3 v.
+Proof.
+  unfold enc_ac3, size_ac3. bl.
+  destruct (DescriptorAC3_HasComponentType v), (DescriptorAC3_HasBSID v), (DescriptorAC3_HasMainID v), (DescriptorAC3_HasASVC v);
+    cbn [Z.b2z]; bl; lia.
+Qed.
+
+Lemma bitlen_enc_avc_video v : bitlen (enc_avc_video v) = 8 * size_avc_video v.
+Proof. unfold enc_avc_video, size_avc_video. bl. reflexivity. Qed.
+
+Lemma bitlen_enc_component v : bitlen (enc_component v) = 8 * size_component v.
+Proof. unfold enc_component, size_component. bl. lia. Qed.
+
+Lemma bitlen_enc_content v : bitlen (enc_content v) = 8 * size_content v.
+Proof.
+  unfold enc_content, size_content. rewrite (bitlen_flat_map _ (fun _ => 16)).
+  - rewrite sumZ_const. lia.
+  - intros x. unfold enc_content_item. bl. reflexivity.
+Qed.
+
+Lemma bitlen_enc_data_stream_alignment v : bitlen (enc_data_stream_alignment v) = 8 * size_data_stream_alignment v.
+Proof. unfold enc_data_stream_alignment. bl. reflexivity. Qed.
+
+Lemma bitlen_enc_enhanced_ac3 v : bitlen (enc_enhanced_ac3 v) = 8 * size_enhanced_ac3 v.
+Proof.
+  unfold enc_enhanced_ac3, size_enhanced_ac3. bl.
+  destruct (DescriptorEnhancedAC3_HasComponentType v), (DescriptorEnhancedAC3_HasBSID v), (DescriptorEnhancedAC3_HasMainID v),
+    (DescriptorEnhancedAC3_HasASVC v), (DescriptorEnhancedAC3_HasSubStream1 v), (DescriptorEnhancedAC3_HasSubStream2 v),
+    (DescriptorEnhancedAC3_HasSubStream3 v); cbn [Z.b2z]; bl; lia.
+Qed.
+
+Lemma bitlen_enc_extended_event v : bitlen (enc_extended_event v) = 8 * size_extended_event v.
+Proof.
+  unfold enc_extended_event, size_extended_event, size_extended_event_items. bl.
+  rewrite (bitlen_flat_map _ (fun it => 8 * size_extended_event_item it)).
+  - assert (E : forall l, sumZ (fun it => 8 * size_extended_event_item it) l = 8 * sumZ size_extended_event_item l).
+    { induction l as [|x l IH]; [reflexivity|]. cbn [sumZ fold_right]. unfold sumZ in IH. rewrite IH. lia. }
+    rewrite E. lia.
+  - intros it. unfold enc_extended_event_item, size_extended_event_item. bl. lia.
+Qed.
+
+Lemma bitlen_enc_supplementary_audio v :
+  bitlen (enc_extension_supplementary_audio v) = 8 * size_supplementary_audio v.
+Proof.
+  unfold enc_extension_supplementary_audio, size_supplementary_audio. bl.
+  destruct (DescriptorExtensionSupplementaryAudio_HasLanguageCode v); bl; lia.
+Qed.
+
+Lemma bitlen_enc_extension v its : enc_extension v = Ok its -> bitlen its = 8 * size_extension v.
+Proof.
+  unfold enc_extension, size_extension.
+  destruct (DescriptorExtension_Tag v =? C_DescriptorTagExtensionSupplementaryAudio).
+  - destruct (DescriptorExtension_SupplementaryAudio v) as [s|]; cbn [dneed res_map]; [|discriminate].
+    intros H; inversion H; subst. rewrite bitlen_cons, bitlen_enc_supplementary_audio. bl. lia.
+  - intros H; inversion H; subst. destruct (DescriptorExtension_Unknown v); bl; lia.
+Qed.
+
+Lemma bitlen_enc_iso639 v : bitlen (enc_iso639 v) = 8 * size_iso639 v.
+Proof. unfold enc_iso639, size_iso639. bl. reflexivity. Qed.
+
+Lemma bitlen_enc_local_time_offset v : bitlen (enc_local_time_offset v) = 8 * size_local_time_offset v.
+Proof.
+  unfold enc_local_time_offset, size_local_time_offset. rewrite (bitlen_flat_map _ (fun _ => 104)).
+  - rewrite sumZ_const. lia.
+  - intros x. unfold enc_local_time_offset_item. bl.
+    rewrite !bitlen_enc_dvb_duration_minutes, bitlen_enc_dvb_time. reflexivity.
+Qed.
+
+Lemma bitlen_enc_maximum_bitrate v : bitlen (enc_maximum_bitrate v) = 8 * size_maximum_bitrate v.
+Proof. unfold enc_maximum_bitrate. bl. reflexivity. Qed.
+
+Lemma bitlen_enc_network_name v : bitlen (enc_network_name v) = 8 * size_network_name v.
+Proof. unfold enc_network_name, size_network_name. bl. reflexivity. Qed.
+
+Lemma bitlen_enc_parental_rating v : bitlen (enc_parental_rating v) = 8 * size_parental_rating v.
+Proof.
+  unfold enc_parental_rating, size_parental_rating. rewrite (bitlen_flat_map _ (fun _ => 32)).
+  - rewrite sumZ_const. lia.
+  - intros x. unfold enc_parental_rating_item. bl. reflexivity.
+Qed.
+
+Lemma bitlen_enc_private_data_indicator v : bitlen (enc_private_data_indicator v) = 8 * size_private_data_indicator v.
+Proof. unfold enc_private_data_indicator. bl. reflexivity. Qed.
+Lemma bitlen_enc_private_data_specifier v : bitlen (enc_private_data_specifier v) = 8 * size_private_data_specifier v.
+Proof. unfold enc_private_data_specifier. bl. reflexivity. Qed.
+
+Lemma bitlen_enc_registration v : bitlen (enc_registration v) = 8 * size_registration v.
+Proof. unfold enc_registration, size_registration. bl. lia. Qed.
+
+Lemma bitlen_enc_service v : bitlen (enc_service v) = 8 * size_service v.
+Proof. unfold enc_service, size_service. bl. lia. Qed.
+
+Lemma bitlen_enc_short_event v : bitlen (enc_short_event v) = 8 * size_short_event v.
+Proof. unfold enc_short_event, size_short_event. bl. lia. Qed.
+
+Lemma bitlen_enc_stream_identifier v : bitlen (enc_stream_identifier v) = 8 * size_stream_identifier v.
+Proof. unfold enc_stream_identifier. bl. reflexivity. Qed.
+
+Lemma bitlen_enc_subtitling v : bitlen (enc_subtitling v) = 8 * size_subtitling v.
+Proof.
+  unfold enc_subtitling, size_subtitling. rewrite (bitlen_flat_map _ (fun _ => 64)).
+  - rewrite sumZ_const. lia.
+  - intros x. unfold enc_subtitling_item. bl. reflexivity.
+Qed.
+
+Lemma bitlen_enc_teletext v : bitlen (enc_teletext v) = 8 * size_teletext v.
+Proof.
+  unfold enc_teletext, size_teletext. rewrite (bitlen_flat_map _ (fun _ => 40)).
+  - rewrite sumZ_const. lia.
+  - intros x. unfold enc_teletext_item. bl. reflexivity.
+Qed.
+
+(* the six line-based VBI services of the code are those of EN 300 468 table 105 *)
+Lemma is_vbi_line_service_spec id : is_vbi_line_service id = spec_is_vbi_line_service id.
+Proof.
+  unfold is_vbi_line_service, spec_is_vbi_line_service.
+  unfold C_VBIDataServiceIDClosedCaptioning, C_VBIDataServiceIDEBUTeletext, C_VBIDataServiceIDInvertedTeletext,
+    C_VBIDataServiceIDMonochrome442Samples, C_VBIDataServiceIDVPS, C_VBIDataServiceIDWSS.
+  destruct (id =? 1) eqn:?, (id =? 2) eqn:?, (id =? 4) eqn:?, (id =? 5) eqn:?, (id =? 6) eqn:?, (id =? 7) eqn:?; reflexivity.
+Qed.
+
+Lemma bitlen_enc_vbi_data v : bitlen (enc_vbi_data v) = 8 * size_vbi_data v.
+Proof.
+  unfold enc_vbi_data, size_vbi_data.
+  rewrite (bitlen_flat_map _ (fun s => 8 * size_vbi_data_service s)).
+  - induction (DescriptorVBIData_Services v) as [|x l IH]; [reflexivity|]. cbn [sumZ fold_right]. unfold sumZ in IH. rewrite IH. lia.
+  - intros s. unfold enc_vbi_data_service, size_vbi_data_service. rewrite is_vbi_line_service_spec.
+    destruct (spec_is_vbi_line_service _).
+    + rewrite bitlen_cons, (bitlen_cons _ (flat_map _ _)). rewrite (bitlen_flat_map _ (fun _ => 8)).
+      * rewrite sumZ_const. bl. unfold zlen. lia.
+      * intros l. unfold enc_vbi_line. bl. reflexivity.
+    + bl. reflexivity.
+Qed.
+
+Lemma bitlen_enc_unknown v : bitlen (enc_unknown v) = 8 * size_unknown v.
+Proof. unfold enc_unknown, size_unknown. bl. reflexivity. Qed.
+
+(* ---- L2: the length calculators (re-translated from descriptor.go) are the sizes modulo 256 ---- *)
+
+Lemma b2z_if (b : bool) (x : Z) : (if b then x + 1 else x) = x + Z.b2z b.
+Proof. destruct b; cbn [Z.b2z]; lia. Qed.
+
+Lemma calc_ac3_size v : calcDescriptorAC3Length (Some v) = size_ac3 v mod 256.
+Proof. unfold calcDescriptorAC3Length, size_ac3, zlen. cbn [odflt]. rewrite !b2z_if. f_equal. Qed.
+Lemma calc_avc_video_size v : calcDescriptorAVCVideoLength (Some v) = size_avc_video v mod 256.
+Proof. reflexivity. Qed.
+Lemma calc_component_size v : calcDescriptorComponentLength (Some v) = size_component v mod 256.
+Proof. reflexivity. Qed.
+Lemma calc_content_size v : calcDescriptorContentLength (Some v) = size_content v mod 256.
+Proof. reflexivity. Qed.
+Lemma calc_data_stream_alignment_size v : calcDescriptorDataStreamAlignmentLength (Some v) = size_data_stream_alignment v mod 256.
+Proof. reflexivity. Qed.
+Lemma calc_enhanced_ac3_size v : calcDescriptorEnhancedAC3Length (Some v) = size_enhanced_ac3 v mod 256.
+Proof. unfold calcDescriptorEnhancedAC3Length, size_enhanced_ac3, zlen. cbn [odflt]. rewrite !b2z_if. f_equal. Qed.
+
+Lemma extended_event_loop l a :
+  fold_left calcDescriptorExtendedEventLength_loop1 l a = a + sumZ size_extended_event_item l.
+Proof.
+  revert a. induction l as [|x l IH]; intros a; [cbn; lia|].
+  cbn [fold_left sumZ fold_right]. rewrite IH. unfold calcDescriptorExtendedEventLength_loop1, size_extended_event_item, zlen, sumZ. lia.
+Qed.
+Lemma calc_extended_event_size v :
+  calcDescriptorExtendedEventLength (Some v) = (size_extended_event v mod 256, size_extended_event_items v mod 256).
+Proof.
+  unfold calcDescriptorExtendedEventLength, size_extended_event, size_extended_event_items. cbn [odflt].
+  rewrite extended_event_loop. unfold zlen. f_equal; f_equal; lia.
+Qed.
+
+Lemma calc_supplementary_audio_size v :
+  calcDescriptorExtensionSupplementaryAudioLength (Some v) = size_supplementary_audio v.
+Proof.
+  unfold calcDescriptorExtensionSupplementaryAudioLength, size_supplementary_audio, zlen. cbn [odflt].
+  destruct (DescriptorExtensionSupplementaryAudio_HasLanguageCode v); lia.
+Qed.
+Lemma calc_extension_size v : calc_extension_length (Some v) = size_extension v mod 256.
+Proof.
+  unfold calc_extension_length, size_extension.
+  destruct (DescriptorExtension_Tag v =? C_DescriptorTagExtensionSupplementaryAudio).
+  - destruct (DescriptorExtension_SupplementaryAudio v) as [s|]; [rewrite calc_supplementary_audio_size|]; reflexivity.
+  - destruct (DescriptorExtension_Unknown v); f_equal; unfold blen, zlen; lia.
+Qed.
+Lemma calc_iso639_size v : calcDescriptorISO639LanguageAndAudioTypeLength (Some v) = size_iso639 v mod 256.
+Proof. reflexivity. Qed.
+Lemma calc_local_time_offset_size v : calcDescriptorLocalTimeOffsetLength (Some v) = size_local_time_offset v mod 256.
+Proof. reflexivity. Qed.
+Lemma calc_maximum_bitrate_size v : calcDescriptorMaximumBitrateLength (Some v) = size_maximum_bitrate v mod 256.
+Proof. reflexivity. Qed.
+Lemma calc_network_name_size v : calcDescriptorNetworkNameLength (Some v) = size_network_name v mod 256.
+Proof. reflexivity. Qed.
+Lemma calc_parental_rating_size v : calcDescriptorParentalRatingLength (Some v) = size_parental_rating v mod 256.
+Proof. reflexivity. Qed.
+Lemma calc_private_data_indicator_size v : calcDescriptorPrivateDataIndicatorLength (Some v) = size_private_data_indicator v mod 256.
+Proof. reflexivity. Qed.
+Lemma calc_private_data_specifier_size v : calcDescriptorPrivateDataSpecifierLength (Some v) = size_private_data_specifier v mod 256.
+Proof. reflexivity. Qed.
+Lemma calc_registration_size v : calcDescriptorRegistrationLength (Some v) = size_registration v mod 256.
+Proof. reflexivity. Qed.
+Lemma calc_service_size v : calcDescriptorServiceLength (Some v) = size_service v mod 256.
+Proof. unfold calcDescriptorServiceLength, size_service, zlen. cbn [odflt]. f_equal. lia. Qed.
+Lemma calc_short_event_size v : calcDescriptorShortEventLength (Some v) = size_short_event v mod 256.
+Proof. unfold calcDescriptorShortEventLength, size_short_event, zlen. cbn [odflt]. f_equal. Qed.
+Lemma calc_stream_identifier_size v : calcDescriptorStreamIdentifierLength (Some v) = size_stream_identifier v mod 256.
+Proof. reflexivity. Qed.
+Lemma calc_subtitling_size v : calcDescriptorSubtitlingLength (Some v) = size_subtitling v mod 256.
+Proof. reflexivity. Qed.
+Lemma calc_teletext_size v : calcDescriptorTeletextLength (Some v) = size_teletext v mod 256.
+Proof. reflexivity. Qed.
+
+Lemma vbi_data_loop l a : fold_left calcDescriptorVBIDataLength_loop1 l a = a + sumZ size_vbi_data_service l.
+Proof.
+  revert a. induction l as [|x l IH]; intros a; [cbn; lia|].
+  cbn [fold_left sumZ fold_right]. rewrite IH. unfold calcDescriptorVBIDataLength_loop1, size_vbi_data_service, sumZ.
+  fold (is_vbi_line_service (DescriptorVBIDataService_DataServiceID x)). rewrite is_vbi_line_service_spec.
+  destruct (spec_is_vbi_line_service _); unfold zlen; lia.
+Qed.
+Lemma calc_vbi_data_size v : calcDescriptorVBIDataLength (Some v) = size_vbi_data v mod 256.
+Proof. unfold calcDescriptorVBIDataLength, size_vbi_data. cbn [odflt]. rewrite vbi_data_loop. f_equal. Qed.
+Lemma calc_unknown_size v : calcDescriptorUnknownLength (Some v) = size_unknown v mod 256.
+Proof. reflexivity. Qed.
+
+(* ---- the tag dispatch ---- *)
+
+Ltac unfold_tags := unfold C_DescriptorTagAC3, C_DescriptorTagAVCVideo, C_DescriptorTagComponent, C_DescriptorTagContent,
+  C_DescriptorTagDataStreamAlignment, C_DescriptorTagEnhancedAC3, C_DescriptorTagExtendedEvent, C_DescriptorTagExtension,
+  C_DescriptorTagISO639LanguageAndAudioType, C_DescriptorTagLocalTimeOffset, C_DescriptorTagMaximumBitrate,
+  C_DescriptorTagNetworkName, C_DescriptorTagParentalRating, C_DescriptorTagPrivateDataIndicator,
+  C_DescriptorTagPrivateDataSpecifier, C_DescriptorTagRegistration, C_DescriptorTagService, C_DescriptorTagShortEvent,
+  C_DescriptorTagStreamIdentifier, C_DescriptorTagSubtitling, C_DescriptorTagTeletext, C_DescriptorTagVBIData,
+  C_DescriptorTagVBITeletext in *.
+
+Lemma is_user_defined_spec tag : is_user_defined tag = spec_is_user_defined tag.
+Proof. reflexivity. Qed.
+
+Lemma calc_none_0 :
+  calcDescriptorAC3Length None = 0 /\ calcDescriptorAVCVideoLength None = 0 /\ calcDescriptorComponentLength None = 0 /\
+  calcDescriptorContentLength None = 0 /\ calcDescriptorDataStreamAlignmentLength None = 0 /\
+  calcDescriptorEnhancedAC3Length None = 0 /\ fst (calcDescriptorExtendedEventLength None) = 0 /\
+  calc_extension_length None = 0 /\ calcDescriptorISO639LanguageAndAudioTypeLength None = 0 /\
+  calcDescriptorLocalTimeOffsetLength None = 0 /\ calcDescriptorMaximumBitrateLength None = 0 /\
+  calcDescriptorNetworkNameLength None = 0 /\ calcDescriptorParentalRatingLength None = 0 /\
+  calcDescriptorPrivateDataIndicatorLength None = 0 /\ calcDescriptorPrivateDataSpecifierLength None = 0 /\
+  calcDescriptorRegistrationLength None = 0 /\ calcDescriptorServiceLength None = 0 /\ calcDescriptorShortEventLength None = 0 /\
+  calcDescriptorStreamIdentifierLength None = 0 /\ calcDescriptorSubtitlingLength None = 0 /\
+  calcDescriptorTeletextLength None = 0 /\ calcDescriptorVBIDataLength None = 0 /\ calcDescriptorUnknownLength None = 0.
+Proof. repeat split; reflexivity. Qed.
+
+(* calcDescriptorLength is the size of the body the tag selects, modulo 256 *)
+Lemma calc_descriptor_length_size d : calc_descriptor_length d = desc_size d mod 256.
+Proof.
+  unfold calc_descriptor_length, desc_size. rewrite is_user_defined_spec. unfold_tags.
+  destruct (spec_is_user_defined (Descriptor_Tag d)); [reflexivity|].
+  repeat match goal with
+  | |- (if ?c then _ else _) = _ => destruct c;
+      [ match goal with
+        | |- fst (_ ?o) = _ => destruct o as [v|]; [cbn [osize]|reflexivity]
+        | |- _ ?o = _ => destruct o as [v|]; [cbn [osize]|reflexivity]
+        end;
+        first [ apply calc_ac3_size | apply calc_avc_video_size | apply calc_component_size | apply calc_content_size
+              | apply calc_data_stream_alignment_size | apply calc_enhanced_ac3_size
+              | apply calc_extension_size | apply calc_iso639_size
+              | apply calc_local_time_offset_size | apply calc_maximum_bitrate_size | apply calc_network_name_size
+              | apply calc_parental_rating_size | apply calc_private_data_indicator_size | apply calc_private_data_specifier_size
+              | apply calc_registration_size | apply calc_service_size | apply calc_short_event_size
+              | apply calc_stream_identifier_size | apply calc_subtitling_size | apply calc_teletext_size
+              | apply calc_vbi_data_size | (rewrite calc_extended_event_size; reflexivity) ]
+      | ]
+  end.
+  destruct (Descriptor_Unknown d); [apply calc_unknown_size|reflexivity].
+Qed.
+
+(* the body writer emits 8 * desc_size bits whenever it returns *)
+Lemma enc_descriptor_body_size d its : enc_descriptor_body d = Ok its -> bitlen its = 8 * desc_size d.
+Proof.
+  unfold enc_descriptor_body, desc_size. rewrite is_user_defined_spec. unfold_tags.
+  destruct (spec_is_user_defined (Descriptor_Tag d)).
+  { intros H; inversion H; subst. bl. reflexivity. }
+  repeat match goal with
+  | |- (if ?c then _ else _) = _ -> _ => destruct c;
+      [ match goal with
+        | |- res_map _ (dneed ?o) = _ -> _ => destruct o as [v|]; cbn [dneed res_map osize]; [|discriminate];
+             intros H; inversion H; subst; clear H
+        | |- res_bind (dneed ?o) _ = _ -> _ => destruct o as [v|]; cbn [dneed res_bind osize]; [|discriminate]
+        end;
+        first [ apply bitlen_enc_ac3 | apply bitlen_enc_avc_video | apply bitlen_enc_component | apply bitlen_enc_content
+              | apply bitlen_enc_data_stream_alignment | apply bitlen_enc_enhanced_ac3 | apply bitlen_enc_extended_event
+              | apply bitlen_enc_extension | apply bitlen_enc_iso639 | apply bitlen_enc_local_time_offset
+              | apply bitlen_enc_maximum_bitrate | apply bitlen_enc_network_name | apply bitlen_enc_parental_rating
+              | apply bitlen_enc_private_data_indicator | apply bitlen_enc_private_data_specifier | apply bitlen_enc_registration
+              | apply bitlen_enc_service | apply bitlen_enc_short_event | apply bitlen_enc_stream_identifier
+              | apply bitlen_enc_subtitling | apply bitlen_enc_teletext | apply bitlen_enc_vbi_data ]
+      | ]
+  end.
+  destruct (Descriptor_Unknown d) as [v|]; cbn [dneed res_map osize]; [|discriminate].
+  intros H; inversion H; subst. apply bitlen_enc_unknown.
+Qed.
